@@ -616,3 +616,21 @@ def kmsg_record_complete(ctx, tag):
                   "the kmsg record is the caller's text, only extended by prefix and newline, and written in full",
                   "the buffer written to kmsg is built from '%s'%s%s: the record can lose its tail - the '(dry)' marker and the kill details stand at the end "
                   "of the text" % (src[:90], "" if whole else ", length " + kl.text(a[2]), (", shortened by " + ", ".join(shrinks)) if shrinks else ""))
+
+
+def readdir_does_not_follow_links(ctx, tag):
+    """The d_type branch of readDirFromDIR classifies the ENTRY itself (a symlink is DT_LNK, neither file nor directory); the
+    fstatat fallback agrees only if it does not follow symlinks - and then a dangling link cannot fail the whole listing either."""
+    rd = ctx.fn1("Oomd::Fs::readDirFromDIR")
+    ctx.use(rd)
+    st = [i for i in rd.calls("fstatat", "fstatat64", "lstat", "stat") if rd.nodes[i]["k"] == "call" and len(rd.nodes[i].get("args", [])) >= 2]
+    ctx.counters[tag + "_readdir_stat_sites"] = len(st)
+    ctx.floor(tag + "_readdir_stat_sites", 1, "stat call of the d_type-less fallback in readDirFromDIR")
+    for i in st:
+        nm = rd.nodes[i].get("cname")
+        a = [rd.text(x) for x in rd.nodes[i].get("args", [])]
+        nofollow = nm == "lstat" or (nm.startswith("fstatat") and len(a) == 4 and (a[3] in ("256", "AT_SYMLINK_NOFOLLOW") or "256" in a[3].split(" | ") or "AT_SYMLINK_NOFOLLOW" in a[3]))
+        ctx.check(nofollow, tag + ":readdir-fallback-does-not-follow-symlinks", "sibling_agreement (entry type, not target type)", rd.loc(i),
+                  "the fallback looks at the directory entry itself, like d_type does",
+                  "the d_type-less fallback follows symbolic links (%s(%s)): it classifies by the target where the fast path classifies the entry, and a "
+                  "dangling link makes the stat - and with it the whole directory listing - fail" % (nm, ", ".join(a)[:80]))
